@@ -24,15 +24,36 @@ type c13Params struct {
 	Lines    int
 	Cancel   []int // sessions that get a canceller
 	Truncate bool  // tail: the file of session 0 is truncated while it is followed (the read is retried)
+	// Faulty: sessions whose read fails after it took its slot (an empty .gz file); with ReadDelayMs every read(2)
+	// of the other sessions' files takes that long, so that their reads are still running meanwhile
+	Faulty      []int
+	ReadDelayMs int
+	D           int // deviation bound of this scenario (0 = tier default)
 }
 
 func (p c13Params) String() string {
-	return fmt.Sprintf("mode=%s limit=%d sessions=%d files=%d lines=%d cancel=%v truncate=%v", p.Mode, p.Limit, p.Sessions, p.Files, p.Lines, p.Cancel, p.Truncate)
+	s := fmt.Sprintf("mode=%s limit=%d sessions=%d files=%d lines=%d cancel=%v truncate=%v", p.Mode, p.Limit, p.Sessions, p.Files, p.Lines, p.Cancel, p.Truncate)
+	if len(p.Faulty) > 0 {
+		s += fmt.Sprintf(" failing-read-in-sessions=%v readdelay=%dms", p.Faulty, p.ReadDelayMs)
+	}
+	return s
 }
 
 func c13Files(p c13Params) (dir string) {
 	dir = fmt.Sprintf("c13/%s-%d-%d-%d", p.Mode, p.Sessions, p.Files, p.Lines)
+	if len(p.Faulty) > 0 {
+		dir += fmt.Sprintf("-faulty%v", p.Faulty)
+		dir = strings.NewReplacer(" ", "_", "[", "", "]", "").Replace(dir)
+	}
+	faulty := map[int]bool{}
+	for _, s := range p.Faulty {
+		faulty[s] = true
+	}
 	for s := 0; s < p.Sessions; s++ {
+		if faulty[s] {
+			WriteScratch(fmt.Sprintf("%s/s%d/f0.log.gz", dir, s), "") // not a gzip stream: the read fails
+			continue
+		}
 		for f := 0; f < p.Files; f++ {
 			var sb strings.Builder
 			for l := 1; l <= p.Lines; l++ {
@@ -80,6 +101,10 @@ func c13Scenario(p c13Params) *explore.Scenario {
 			env := StartEnv(source.Server, &args, func() {
 				config.Server.MaxConcurrentCats = p.Limit
 				config.Server.MaxConcurrentTails = p.Limit
+				if p.ReadDelayMs > 0 {
+					vos.S.ReadDelay = time.Duration(p.ReadDelayMs) * time.Millisecond
+					vos.S.ReadDelayPrefix = dir + "/"
+				}
 			})
 			_ = env
 			cat := vrt.Make[struct{}]("catLimiter", p.Limit)
@@ -89,6 +114,10 @@ func c13Scenario(p c13Params) *explore.Scenario {
 				lim = tail
 			}
 			var ss []*Session
+			faultyS := map[int]bool{}
+			for _, f := range p.Faulty {
+				faultyS[f] = true
+			}
 			cancelled := map[int]bool{}
 			for _, c := range p.Cancel {
 				cancelled[c] = true
@@ -100,9 +129,9 @@ func c13Scenario(p c13Params) *explore.Scenario {
 				if p.Mode == "map" {
 					// a dmap session: the map command, then the read command feeding it
 					s.H.Write(WireCommand("map select count($line) group by $hostname logformat generic"))
-					s.H.Write(WireCommand(fmt.Sprintf("cat %s/s%d/*.log regex:noop ", dir, i)))
+					s.H.Write(WireCommand(fmt.Sprintf("cat %s/s%d/*.log* regex:noop ", dir, i)))
 				} else {
-					s.H.Write(WireCommand(fmt.Sprintf("%s %s/s%d/*.log regex:noop ", p.Mode, dir, i)))
+					s.H.Write(WireCommand(fmt.Sprintf("%s %s/s%d/*.log* regex:noop ", p.Mode, dir, i)))
 				}
 				if cancelled[i] {
 					vrt.Go("cancel", func() {
@@ -141,7 +170,7 @@ func c13Scenario(p c13Params) *explore.Scenario {
 						got[f[5]]++
 					}
 				}
-				if p.Mode == "cat" && !cancelled[i] {
+				if p.Mode == "cat" && !cancelled[i] && !faultyS[i] {
 					for f := 0; f < p.Files; f++ {
 						for l := 1; l <= p.Lines; l++ {
 							want := fmt.Sprintf("s%df%dl%d\n", i, f, l)
@@ -205,6 +234,8 @@ func c13Params_(tier string) (ps []c13Params, d int) {
 			{Mode: "cat", Limit: 1, Sessions: 2, Files: 2, Lines: 1},
 			{Mode: "cat", Limit: 2, Sessions: 3, Files: 1, Lines: 1, Cancel: []int{0}},
 			{Mode: "map", Limit: 1, Sessions: 2, Files: 2, Lines: 1, Cancel: []int{1}},
+			{Mode: "cat", Limit: 2, Sessions: 4, Files: 1, Lines: 1, Faulty: []int{1}, ReadDelayMs: 500, D: 1},
+			{Mode: "cat", Limit: 1, Sessions: 3, Files: 1, Lines: 1, Faulty: []int{0}, ReadDelayMs: 500, D: 1},
 		}, 2
 	}
 	for _, mode := range []string{"cat", "tail", "map"} {
@@ -230,6 +261,9 @@ func c13Params_(tier string) (ps []c13Params, d int) {
 			}
 		}
 	}
+	ps = append(ps, c13Params{Mode: "cat", Limit: 2, Sessions: 4, Files: 1, Lines: 1, Faulty: []int{1}, ReadDelayMs: 500, D: 2},
+		c13Params{Mode: "cat", Limit: 2, Sessions: 4, Files: 1, Lines: 1, Faulty: []int{0, 2}, ReadDelayMs: 500, D: 1},
+		c13Params{Mode: "map", Limit: 2, Sessions: 4, Files: 1, Lines: 1, Faulty: []int{1}, ReadDelayMs: 500, D: 1})
 	return ps, 3
 }
 
@@ -238,7 +272,7 @@ func init() {
 		ID:    "C13",
 		Level: "model_checking",
 		Rule: "stateless exploration of all schedules within a deviation bound of 2-3 real ServerHandler sessions sharing one limiter (cat, tail and mapreduce reads, limit 1-2, " +
-			"1-2 files per session, optional cancellation of sessions at any point); a case is one execution; distinct = distinct (scenario, observable outcome) pairs",
+			"1-2 files per session, optional cancellation of sessions at any point, sessions whose read fails after taking its slot while slow reads of other sessions are running); a case is one execution; distinct = distinct (scenario, observable outcome) pairs",
 		Assumptions: []string{
 			"code between two synchronisation operations is atomic (data-race freedom; checked separately by the free-running -race pass)",
 			"virtual time advances only when no goroutine is runnable",
@@ -251,7 +285,11 @@ func init() {
 					return
 				}
 				sc := c13Scenario(p)
-				c.Explore(sc, d, c13Sig)
+				dd := d
+				if p.D > 0 {
+					dd = p.D
+				}
+				c.Explore(sc, dd, c13Sig)
 				c.Sample(map[string]interface{}{"scenario": p.String(), "deviation_bound": d})
 			}
 		},
